@@ -29,6 +29,10 @@ struct Case {
     /// 0 generated listfile, 1 no listfile, 2 user-supplied listfile naming only every other file
     #[serde(default)]
     listfile_mode: u8,
+    /// 0 intact; k>0: the stored bytes of file (k-1) mod n are damaged after the build, so that
+    /// reading it fails (or yields other bytes) — a failure that is not a missing name
+    #[serde(default)]
+    damage: u8,
 }
 
 fn err_kind(e: &wow_mpq::Error) -> String {
@@ -105,6 +109,21 @@ fn check_case(check: &Check, case: &Case, origin: &str) -> CaseResult {
         check.bump("discard_build_err", 1);
         return Ok(());
     }
+    if case.damage > 0 && !spec.files.is_empty() {
+        let victim = &spec.files[(case.damage as usize - 1) % spec.files.len()];
+        let info = Archive::open(&path).ok().and_then(|mut a| a.find_file(&victim.name).ok().flatten());
+        if let Some(info) = info {
+            if info.compressed_size >= 8 {
+                let mut bytes = std::fs::read(&path).map_err(|e| engine::Fail::new("harness:io", e.to_string()))?;
+                let at = info.file_pos as usize + info.compressed_size as usize / 2;
+                for b in bytes.iter_mut().skip(at).take(6) {
+                    *b ^= 0xA5;
+                }
+                std::fs::write(&path, bytes).map_err(|e| engine::Fail::new("harness:io", e.to_string()))?;
+                check.bump("archives_with_a_damaged_file", 1);
+            }
+        }
+    }
     let names: Vec<String> = case.requests.iter().map(|&r| name_of(case, r)).collect();
     let refs: Vec<&str> = names.iter().map(|s| s.as_str()).collect();
     // sequential oracle
@@ -132,7 +151,7 @@ fn check_case(check: &Check, case: &Case, origin: &str) -> CaseResult {
         _ => ">5000",
     };
     let class = format!(
-        "{origin}:len{lc}:thr{}:batches{}:skip{}:missing{}:dup{}:cont{}:lf{}:ord{}",
+        "{origin}:len{lc}:thr{}:batches{}:skip{}:missing{}:dup{}:cont{}:lf{}:ord{}:dmg{}",
         case.threads.min(17),
         nb.min(5),
         case.skip_errors as u8,
@@ -140,7 +159,8 @@ fn check_case(check: &Check, case: &Case, origin: &str) -> CaseResult {
         has_dup as u8,
         case.contention as u8,
         case.listfile_mode % 3,
-        case.cfg_order % 6
+        case.cfg_order % 6,
+        (case.damage > 0) as u8
     );
     let nontrivial = case.threads >= 2 && nb >= 2 && (has_dup || any_missing);
     check.count(&class, nontrivial);
@@ -443,7 +463,23 @@ fn multi_archive_generated(check: &Check, cases: usize) {
             }
         }
         // several names from every archive
-        let names: Vec<String> = (0..rng.random_range(0..5)).map(|_| pick(&mut rng)).collect();
+        // mostly a few names; one case in four asks for a long list (more names than files, so with
+        // repeats, in shuffled order): results must stay in request order whatever the length
+        let n_names = if case % 4 == 1 { rng.random_range(33..90) } else { rng.random_range(0..5) };
+        let long_list_all_present = case % 8 == 1;
+        let names: Vec<String> = (0..n_names)
+            .map(|_| {
+                if long_list_all_present && !specs.is_empty() {
+                    // names every archive holds (if any): a long request that succeeds
+                    let common: Vec<&str> = pool.iter().copied().filter(|n| specs.iter().all(|s| s.files.iter().any(|f| f.name == *n))).collect();
+                    if !common.is_empty() {
+                        let i = rng.random_range(0..common.len());
+                        return spell(&mut rng, common[i]);
+                    }
+                }
+                pick(&mut rng)
+            })
+            .collect();
         let refs: Vec<&str> = names.iter().map(|s| s.as_str()).collect();
         let wantm: Vec<Vec<Result<Vec<u8>, String>>> = paths.iter().map(|p| names.iter().map(|n| seq_read(p, n)).collect()).collect();
         let any_err = wantm.iter().flatten().any(|w| w.is_err());
@@ -559,7 +595,7 @@ fn grid(thorough: bool) -> Vec<Case> {
                             requests[*p] = n + 1;
                         }
                     }
-                    v.push(Case { spec: spec.clone(), requests, n_missing_pool: 3, threads, batch, skip_errors: skip, reps: 1, contention: false, cfg_order: (v.len() % 6) as u8, listfile_mode: ((v.len() / 6) % 3) as u8 });
+                    v.push(Case { spec: spec.clone(), requests, n_missing_pool: 3, threads, batch, skip_errors: skip, reps: 1, contention: false, cfg_order: (v.len() % 6) as u8, listfile_mode: ((v.len() / 6) % 3) as u8, damage: if v.len() % 5 == 4 { 1 + (v.len() % 7) as u8 } else { 0 } });
                 }
             }
         }
@@ -618,11 +654,12 @@ fn main() {
                 any::<bool>(),
                 0u8..6,
                 prop_oneof![2 => Just(0u8), 1 => Just(1u8), 1 => Just(2u8)],
+                prop_oneof![3 => Just(0u8), 1 => 1u8..9],
             )
-                .prop_map(move |(spec, sel, threads, batch, skip_errors, contention, cfg_order, listfile_mode)| {
+                .prop_map(move |(spec, sel, threads, batch, skip_errors, contention, cfg_order, listfile_mode, damage)| {
                     let pool = spec.files.len() + 3;
                     let requests = sel.iter().map(|&s| pt::pick_idx(s, pool) as u16).collect();
-                    Case { spec, requests, n_missing_pool: 3, threads, batch, skip_errors, reps, contention, cfg_order, listfile_mode }
+                    Case { spec, requests, n_missing_pool: 3, threads, batch, skip_errors, reps, contention, cfg_order, listfile_mode, damage }
                 })
         },
         |c| serde_json::to_value(c).unwrap(),
